@@ -31,7 +31,10 @@ def _run_chunk(chunk: Sequence[Any]) -> tuple[int, int, list, set]:
         if nt:
             nontriv += 1
             if sig is not None:
-                sigs.add(sig)
+                try:
+                    sigs.add(sig)
+                except TypeError:
+                    sigs.add(repr(sig))
         if failed:
             fails.append((item, text))
     return ev, nontriv, fails, sigs
